@@ -63,12 +63,21 @@ func vc10(minQuota, maxQuota int, mating bool, pool int) {
 	co.superChampOffspring = sc
 	co.isPopulationChampion = vBool("isPopulationChampion")
 	opts := &neat.Options{PopSize: 20}
+	// link adding enabled or disabled: the super-champion branch consults it. On the mutation route one of the two
+	// structural rates is symbolic at a time (each ordinary baby walks the whole rate chain).
+	linkAdding := !mating && vChoice("structural mutation enabled: add-node / add-link", 2) == 1
+	if linkAdding {
+		opts.MutateAddLinkProb = vFloat("MutateAddLinkProb")
+		vAssume(vAnd(opts.MutateAddLinkProb >= 0, opts.MutateAddLinkProb <= 1))
+	}
 	if mating {
 		opts.MutateOnlyProb, opts.MateOnlyProb, opts.MateMultipointProb = 0, 1, 1
 	} else {
 		opts.MutateOnlyProb = 1
-		opts.MutateAddNodeProb = vFloat("MutateAddNodeProb")
-		vAssume(vAnd(opts.MutateAddNodeProb >= 0, opts.MutateAddNodeProb <= 1))
+		if !linkAdding {
+			opts.MutateAddNodeProb = vFloat("MutateAddNodeProb")
+			vAssume(vAnd(opts.MutateAddNodeProb >= 0, opts.MutateAddNodeProb <= 1))
+		}
 	}
 	pop := newPopulation()
 	babies, err := sp.reproduce(&hCtx{opts: opts}, 2, pop, []*Species{sp})
